@@ -167,51 +167,45 @@ Theorem interface_denotes : forall root pkgs genv penv t idn items i t',
 Proof. exact interface_body_sim. Qed.
 Print Assumptions interface_denotes.
 
-(** 8. include_with_spec.  Full statement: [world_include_sim] without the hypothesis [include_ok].  It is FALSE of
-       the faithful model and of the code ([include_with_renames_both_refuted]): [replace_name] removes a renaming from
-       the map after its first use, so when the included world both imports and exports the plain name [f],
-       [include w with { f as g }] renames only the import.
-
-       PARTIAL: agreement under [include_ok genv penv r items]: no [from] name of the [with] list occurs twice among
-       the import names followed by the export names of the included world (as denoted; [Rexts] makes these the key
-       lists of the model's [w_imports]/[w_exports]).  For list models of [IndexMap]s with unique keys this is exactly
-       "no renamed name is both imported and exported by the included world".  Nothing else is missing. *)
-Theorem include_with_spec_partial : forall root pkgs genv penv w wb r items w',
+(** 8. include_with_spec: [include w with { a as b, .. }] against [den_include] -- a renaming applies on the import
+       side and on the export side alike, interface ids are never renamed and merge, every [from] must be a plain
+       name of the included world.  No side condition.  (Before commit 0d98072 of the repository the resolver used up
+       a renaming at its first use and this statement was false; see the HISTORICAL example below.) *)
+Theorem include_with_spec : forall root pkgs genv penv w wb r items w',
   flat (w_types w) -> Renv (w_types w) root genv -> Rpk (w_types w) pkgs penv -> Rwst w wb ->
-  include_ok genv penv r items = true ->
   world_include root pkgs w r items = DOk w' ->
   w_types w' = w_types w /\ exists wb', den_include genv penv wb r items = Some wb' /\ Rwst w' wb'.
 Proof. exact world_include_sim. Qed.
-Print Assumptions include_with_spec_partial.
+Print Assumptions include_with_spec.
 
-Theorem include_with_renames_both_refuted :
-  exists t root pkgs genv penv w wb r items w' wb',
-    flat (w_types w) /\ w_types w = t /\ Renv t root genv /\ Rpk t pkgs penv /\ Rwst w wb /\
-    world_include root pkgs w r items = DOk w' /\
-    den_include genv penv wb r items = Some wb' /\
-    ~ Rwst w' wb'.
-Proof. exact include_renames_both_refuted_full. Qed.
-Print Assumptions include_with_renames_both_refuted.
-
-(** the witness in readable form: the included world imports [f] and exports [f]; with [f as g] the model's exports
-    keep [f], the denotation's become [g] *)
-Example include_with_renames_both_witness :
+(** the former witness (the included world imports [f] and exports [f]; [with { f as g }]): the current model and the
+    denotation agree, [g] on both sides *)
+Example include_renames_both_sides :
   (exists w', world_include rb_root (mkpkgs [] []) rb_w0 (Ast.WRIdent (rb_ident (L"w"))) rb_items = DOk w' /\
-              map fst (w_imp w') = [L"g"] /\ map fst (w_exp w') = [L"f"]) /\
+              map fst (w_imp w') = [L"g"] /\ map fst (w_exp w') = [L"g"]) /\
   (exists wb', den_include rb_genv (mkpenv [] []) rb_wb0 (Ast.WRIdent (rb_ident (L"w"))) rb_items = Some wb' /\
                map fst (b_items (wb_imp wb')) = [L"g"] /\ map fst (wb_exp wb') = [L"g"]).
-Proof. exact (proj2 include_renames_both_witness). Qed.
+Proof. exact include_current_witness. Qed.
 
-(** 9. world_denotes (PARTIAL only through [include]: [includes_ok] is [include_ok] for every include of the world;
-       it holds trivially when no include has a [with] list). *)
-Theorem world_denotes_partial : forall root pkgs genv penv t idn items i t',
-  flat t -> Renv t root genv -> Rpk t pkgs penv -> includes_ok genv penv items = true ->
+(** HISTORICAL (regression record, not an obligation): the algorithm of resolution.rs before commit 0d98072
+    ([include_go_prefix], DeclsProofsD, with the old [remove_key] behaviour) on the same witness renamed only the
+    import: the exports kept [f]. *)
+Example include_with_renames_both_historical :
+  exists imps repl1 exps repl2,
+    include_go_prefix [] (ren_of rb_items) (w_imports rb_other) = DOk (imps, repl1) /\
+    include_go_prefix [] repl1 (w_exports rb_other) = DOk (exps, repl2) /\
+    map fst imps = [L"g"] /\ map fst exps = [L"f"].
+Proof. exact include_prefix_witness. Qed.
+
+(** 9. world_denotes *)
+Theorem world_denotes : forall root pkgs genv penv t idn items i t',
+  flat t -> Renv t root genv -> Rpk t pkgs penv ->
   world_body root pkgs t idn items = DOk (i, t') ->
   aext t t' /\ exists wi we, den_world genv penv items = Some (wi, we) /\ rel_item t' (TWorld i) (SWorld wi we).
 Proof. exact world_body_sim. Qed.
-Print Assumptions world_denotes_partial.
+Print Assumptions world_denotes.
 
-(** world items other than includes, and item paths: no side condition *)
+(** world items other than includes, and item paths *)
 Theorem world_items_denote : forall root pkgs genv penv items w wb w',
   wflat w -> Renv (w_types w) root genv -> Rpk (w_types w) pkgs penv -> Rwst w wb ->
   world_items_go root pkgs w items = DOk w' ->
@@ -219,42 +213,32 @@ Theorem world_items_denote : forall root pkgs genv penv items w wb w',
 Proof. exact world_items_go_sim. Qed.
 Print Assumptions world_items_denote.
 
-(** 10. decl_denotes.  Full statement: for every document and every flat initial collection [t0] whose external
-        package table [ext] is related to [eext],
-          resolve_document ext t0 d = DOk s ->
-          exists defs, den_document eext d = Some defs /\ aext t0 (r_types s) /\ Rexts (r_types s) (r_defs s) defs.
-        FALSE as it stands because of [include ... with] (theorem 8).  PARTIAL: for documents with
-        [include_safe eext d = true], i.e. every [include ... with] of the document satisfies [include_ok] (a
-        computable condition on the document and [eext] alone).  [flat t0] is an assumption about the oracle-provided
-        external descriptions only (it holds of the empty collection). *)
-Theorem decl_denotes_partial : forall ext eext t0 d s,
-  flat t0 -> Renv t0 ext eext -> include_safe eext d = true -> resolve_document ext t0 d = DOk s ->
+(** 10. decl_denotes: for every document made of type statements that the resolver accepts, the denotation is defined
+        and every definition unfolds, in the final arenas, to the denoted tree, in order.  [flat t0] and
+        [Renv t0 ext eext] are hypotheses about the oracle inputs (the descriptions of external packages present in
+        the initial collection and their denotations), not a restriction of the documents in scope; both hold of the
+        empty collection with no external packages ([decl_denotes_closed]). *)
+Theorem decl_denotes : forall ext eext t0 d s,
+  flat t0 -> Renv t0 ext eext -> resolve_document ext t0 d = DOk s ->
   aext t0 (r_types s) /\ exists defs, den_document eext d = Some defs /\ Rexts (r_types s) (r_defs s) defs.
 Proof. exact resolve_document_sim. Qed.
-Print Assumptions decl_denotes_partial.
+Print Assumptions decl_denotes.
 
 (** the same with one common fuel: the unfolded definitions of the model ARE the denotation *)
-Theorem decl_denotes_trees_partial : forall ext eext t0 d s,
-  flat t0 -> Renv t0 ext eext -> include_safe eext d = true -> resolve_document ext t0 d = DOk s ->
+Theorem decl_denotes_trees : forall ext eext t0 d s,
+  flat t0 -> Renv t0 ext eext -> resolve_document ext t0 d = DOk s ->
   exists F defs, den_document eext d = Some defs /\ defs_trees F (resolve_document ext t0 d) = Some defs.
 Proof. exact resolve_document_trees. Qed.
-Print Assumptions decl_denotes_trees_partial.
+Print Assumptions decl_denotes_trees.
 
-(** documents in which no include has a [with] list (a purely syntactic condition) are in scope *)
-Theorem decl_denotes_without_renaming_partial : forall ext eext t0 d s,
-  flat t0 -> Renv t0 ext eext -> no_with d = true -> resolve_document ext t0 d = DOk s ->
-  aext t0 (r_types s) /\ exists defs, den_document eext d = Some defs /\ Rexts (r_types s) (r_defs s) defs.
-Proof. intros ext eext t0 d s Hf He Hn. apply resolve_document_sim; [exact Hf | exact He | now apply no_with_safe]. Qed.
-Print Assumptions decl_denotes_without_renaming_partial.
-
-(** self-contained documents (no external packages, empty initial collection) *)
-Theorem decl_denotes_closed_partial : forall d s,
-  include_safe [] d = true -> resolve_document [] empty_types d = DOk s ->
+(** self-contained documents (no external packages, empty initial collection): no hypothesis at all *)
+Theorem decl_denotes_closed : forall d s,
+  resolve_document [] empty_types d = DOk s ->
   exists defs, den_document [] d = Some defs /\ Rexts (r_types s) (r_defs s) defs.
 Proof.
-  intros d s Hs H. destruct (resolve_document_sim [] [] empty_types d s flat_empty (R2_nil _) Hs H) as [_ R]. exact R.
+  intros d s H. destruct (resolve_document_sim [] [] empty_types d s flat_empty (R2_nil _) H) as [_ R]. exact R.
 Qed.
-Print Assumptions decl_denotes_closed_partial.
+Print Assumptions decl_denotes_closed.
 
 (** the invariant used above is an invariant *)
 Theorem resolver_keeps_flat : forall pn pkgs l s s',
@@ -271,9 +255,8 @@ Example ex_doc1_agrees :
 Proof. split; [vm_compute; reflexivity | vm_compute; discriminate]. Qed.
 
 Example ex_doc2_agrees :
-  defs_trees 6 (resolve_document [] empty_types ex_doc2) = den_document [] ex_doc2 /\ den_document [] ex_doc2 <> None /\
-  include_safe [] ex_doc2 = true /\ no_with ex_doc2 = false.
-Proof. split; [vm_compute; reflexivity | split; [vm_compute; discriminate | split; vm_compute; reflexivity]]. Qed.
+  defs_trees 6 (resolve_document [] empty_types ex_doc2) = den_document [] ex_doc2 /\ den_document [] ex_doc2 <> None.
+Proof. split; [vm_compute; reflexivity | vm_compute; discriminate]. Qed.
 
 (** not reached: nothing of the requested list.  Not proved: that [def_ranked]/[scope_ok] are invariants of whole
     documents (only of [resolve_ty]/[params_go], which is what [borrow_in_result_rejected_ranked] needs); the converse
